@@ -271,7 +271,16 @@ func (e c01Effect) bindVar(v *types.Var) (ast.Expr, *types.Var, bool) {
 	if e.G == e.Caller {
 		return nil, canonVar(e.Caller, v), true
 	}
-	i := c01ParamIndex(e.G, canonVar(e.G, v))
+	cv := canonVar(e.G, v)
+	if r := e.G.Recv(); r != nil && cv == r {
+		// the helper's receiver is the expression the method is called on
+		arg := e.At.Recv()
+		if arg == nil {
+			return nil, nil, false
+		}
+		return arg, canonVar(e.Caller, varOf(e.Caller, arg)), true
+	}
+	i := c01ParamIndex(e.G, cv)
 	if i < 0 || i >= len(e.At.Call.Args) {
 		return nil, nil, false
 	}
